@@ -78,6 +78,11 @@ class SimInverter:
         # response type: function | 0x80, except the two commands for which the library expects another one
         rt = (ctl << 8) | {0x27: 0xB7, 0x26: 0xB6}.get(fn, fn | 0x80) if ctl == 3 else (ctl << 8) | (fn | 0x80)
         if ctl == 1 and fn == 0x02:
+            if self.aa55.get("info_once"):
+                # only the first identification probe is answered, afterwards the inverter is silent
+                if self.aa55.get("_info_served"):
+                    return None
+                self.aa55["_info_served"] = True
             return F.aa55_answer(rt, self.aa55.get("info", bytes(64)))
         if ctl == 1 and fn == 0x06:
             return F.aa55_answer(rt, self.aa55.get("runtime", bytes(149)))
